@@ -6,10 +6,12 @@
     {"op":"add","targets":[value,…],"info":[…]}
     {"op":"inc","target":value,"info":[…]}
     {"op":"sync","unreachable":[[ip,port],…]}
+    {"op":"net","ports":[port,…]}                          → {"ids":[networkId port,…]}
   "info" carries the answers of the REAL code for every string mentioned so far:
-    {"v":value,"ok":bool,"ip":s,"port":s,"target":s}   NewTargetFromValue(v) and Target() of the sender for (ip,port)
+    {"v":value,"ok":bool,"ip":s,"port":s,"canon":s,"target":s}
+        net.SplitHostPort(v), net.JoinHostPort(ip,port) and Target() of the sender created for (ip,port)
   stdout: one JSON object per line, the model's prediction (map-derived collections sorted):
-    init      {"ok":true}
+    init      {"ok":true,"host":hostValue,"seeds":[[value,score],…]}   (the re-keyed seeds)
     add, inc  {"scores":[[value,score],…]}
     sync      {"panic":bool,"source":"seeds"|"known","count":int,"n":int,"cands":[[value,ip,port,target,score],…],
                "calls":[[ip,port],…]   (every CreateSender call of the round, reachable or not)
@@ -31,21 +33,34 @@ structure Info where
   ok : Bool
   ip : String
   port : String
+  canon : String
   target : String
 
-structure DState where
-  infos : List Info := []
-  st : State := State.init "" "" "" 0 []
+/-- host endpoint and its joined value, as NewTarget(hostIp, hostPort) computed it -/
+structure Host where
+  ip : String := ""
+  port : String := ""
+  value : String := ""
 
-def envOf (infos : List Info) : Env :=
+def envOf (infos : List Info) (host : Host) : Env :=
   { parse := fun v =>
       match infos.find? (fun i => i.v == v) with
       | some i => if i.ok then some (i.ip, i.port) else none
       | none => none
+    join := fun ip port =>
+      if ip == host.ip && port == host.port then host.value
+      else match infos.find? (fun i => i.ok && i.ip == ip && i.port == port) with
+        | some i => i.canon
+        | none => "?unknown-join?"
     senderTarget := fun ip port =>
       match infos.find? (fun i => i.ok && i.ip == ip && i.port == port) with
       | some i => i.target
       | none => "?unknown-sender-target?" }
+
+structure DState where
+  infos : List Info := []
+  host : Host := {}
+  st : State := State.init (envOf [] {}) "" "" 0 []
 
 def str (j : Json) (k : String) : Except String String := j.getObjValAs? String k
 def strList (j : Json) : Except String (List String) := do
@@ -59,7 +74,7 @@ def parseInfos (j : Json) : Except String (List Info) := do
     let a ← arr.getArr?
     a.toList.mapM fun x => do
       pure { v := ← str x "v", ok := ← x.getObjValAs? Bool "ok", ip := ← str x "ip",
-             port := ← str x "port", target := ← str x "target" }
+             port := ← str x "port", canon := ← str x "canon", target := ← str x "target" }
 
 def jStr (s : String) : Json := Json.str s
 def jInt (i : Int) : Json := Json.num (JsonNumber.fromInt i)
@@ -78,7 +93,10 @@ def handle (d : DState) (line : String) : Except String (DState × Json) := do
   let j ← Json.parse line
   let op ← str j "op"
   let infos := (if op == "init" then [] else d.infos) ++ (← parseInfos j)
-  let env := envOf infos
+  let host : Host ← (if op == "init" then do
+      pure { ip := ← str j "hostIp", port := ← str j "hostPort", value := ← str j "hostValue" }
+    else pure d.host)
+  let env := envOf infos host
   match op with
   | "init" =>
     let seedsJ ← (← j.getObjVal? "seeds").getArr?
@@ -87,16 +105,16 @@ def handle (d : DState) (line : String) : Except String (DState × Json) := do
       if h : a.size = 2 then
         pure ((← a[0].getStr?), (← a[1].getInt?))
       else throw "seed entry"
-    let st := State.init (← str j "hostIp") (← str j "hostPort") (← str j "hostValue")
-      (← j.getObjValAs? Int "max") seeds
-    pure ({ infos, st }, Json.mkObj [("ok", Json.bool true)])
+    let st := State.init env host.ip host.port (← j.getObjValAs? Int "max") seeds
+    pure ({ infos, host, st }, Json.mkObj [("ok", Json.bool true), ("host", jStr st.hostValue),
+      ("seeds", scoresJson st.seeds)])
   | "add" =>
     let ts ← strList (← j.getObjVal? "targets")
     let st := addTargets env d.st ts
-    pure ({ infos, st }, Json.mkObj [("scores", scoresJson st.scores)])
+    pure ({ infos, host, st }, Json.mkObj [("scores", scoresJson st.scores)])
   | "inc" =>
-    let st := incentive d.st (← str j "target")
-    pure ({ infos, st }, Json.mkObj [("scores", scoresJson st.scores)])
+    let st := incentive env d.st (← str j "target")
+    pure ({ infos, host, st }, Json.mkObj [("scores", scoresJson st.scores)])
   | "sync" =>
     let unrJ ← (← j.getObjVal? "unreachable").getArr?
     let unr ← unrJ.toList.mapM fun x => do
@@ -126,7 +144,10 @@ def handle (d : DState) (line : String) : Except String (DState × Json) := do
       ("fanout", jArr (candsS.map fun c =>
           jArr [jStr c.1.ip, jStr c.1.port, jArr ((fanoutFor tvs c.1).map jStr)])),
       ("scores", scoresJson st'.scores)]
-    pure ({ infos, st := st' }, ans)
+    pure ({ infos, host, st := st' }, ans)
+  | "net" =>
+    let ports ← strList (← j.getObjVal? "ports")
+    pure (d, Json.mkObj [("ids", jArr (ports.map fun p => jStr (networkId p)))])
   | other => throw s!"unknown op {other}"
 
 partial def loop (stdin stdout : IO.FS.Stream) (d : DState) : IO Unit := do
